@@ -15,7 +15,7 @@ import (
 
 func init() {
 	sim.Register(&sim.Prop{
-		ID: "C06", Run: runC06, QuickRuns: 100000, ThoroughRuns: 2000000,
+		ID: "C06", Run: runC06, QuickRuns: 100000, ThoroughRuns: 8000000,
 		Rule:       "Each run: 1..3 header parameter sets (any flags/seq id, allow-listed protocol ids, 0..many int/string entries, the ACL-token key, empty and 64KiB-scale strings, every padding residue, header sizes biased to just under/at/over the 64KiB limit) are encoded with Encode into a bufiox.DefaultWriter over a simulated Sink that already holds a random amount of unflushed data (the 14-byte meta region is allocated before and its size field written after 0..many buffer growths), the caller stores the total length and appends a payload; also EncodeToBytes and a bytes-backed writer. The frame is parsed by an independent layout parser, then decoded through a fragmenting Source with Decode and with DecodeFromBytes, and the payload is read back.",
 		Components: realComponents,
 		Probes:     []string{"header_exactly_65536", "header_over_limit_rejected", "header_just_under_limit", "acl_token", "empty_maps", "padding_residue_0", "padding_residue_1", "padding_residue_2", "padding_residue_3", "meta_before_growth", "encode_failed", "pipelined_connection", "encode_into_failing_writer"},
